@@ -333,7 +333,8 @@ func parseTime(b []byte) (int64, error) {
 	if b != nil {
 		var timestamp int64
 		val := string(b)
-		if strings.ContainsAny(val, ":-TZ") {
+		// a minus sign alone does not make a date: "-1" is a nanosecond timestamp before 1970, as in the values layout
+		if strings.ContainsAny(val, ":TZ") {
 			t, e := time.Parse(time.RFC3339, val)
 			if e != nil {
 
